@@ -107,7 +107,7 @@ def shape(m, op):
 
 def signature(prop, clause, m, op, pre, outcome):
     if prop == 'C05' and op[0] in ('setitem', 'delitem', 'setslice', 'delslice') and len(op) > 2 \
-            and not m.fd(op[2])['unique']:
+            and not m.fd(op[2])['unique'] and not (op[0] == 'setslice' and len(op) > 5 and len(op[5]) > 0):
         # one defect, whatever the index or the element: list-based collections do not intercept item/slice writes
         return {'property': prop, 'clause': clause, 'culprit': 'elist-item-or-slice-write', 'shape': {'unique': False},
                 'qualifiers': []}
